@@ -119,6 +119,14 @@ def run(tier, replay=None):
     v = Verdict("C14", tier)
     rng = random.Random(seed() * 40692 % (1 << 31) + 14)
     wd = workdir("c14")
+    # the design-level argument for full-flush independence across calls (spec/FullFlushHistory.tla): the repaired design satisfies
+    # NoCrossReference; the original one and the half-repaired one violate it, and the call histories TLC finds for them are the ones the
+    # family 'full-flush-marker-staged-then-more-input' below drives through the real library
+    ffh = {}
+    for var in ("fixed", "orig", "resetonly"):
+        ffh[var] = tlc_cached("mc/MCFullFlushHistory", cfg="MCFullFlushHistory_%s.cfg" % var, wd=wd, workers=2, timeout=300, allow_violation=(var != "fixed"))
+    if not ffh["fixed"]["ok"]: raise Infra("FullFlushHistory.tla: the repaired design violates NoCrossReference")
+    if ffh["orig"]["ok"] or ffh["resetonly"]["ok"]: raise Infra("FullFlushHistory.tla: an unrepaired variant no longer violates NoCrossReference: the model lost its meaning")
     scns = [json.load(open(replay))["replay"]["scenario"]] if replay else gen(tier, rng)
     if not replay: scns += pending_marker_family(tier, rng, wd, len(scns))
     tf = igz.run_harness(scns, wd, "c14")
@@ -153,10 +161,11 @@ def run(tier, replay=None):
     for s in scns: fam[s["meta"]["family"]] = fam.get(s["meta"]["family"], 0) + 1
     cov = {"states": len(scns), "transitions": summ.get("calls", 0), "traces_validated_against_impl": len(scns) + len(extra), "evaluations": len(scns), "distinct_nontrivial": fp,
            "flush_points_judged": fp, "completed_full_flush_points": full, "families": fam,
+           "full_flush_history_model": {"module": "spec/FullFlushHistory.tla", "repaired_design_distinct_states": ffh["fixed"]["distinct"], "original_design_violates": True, "reset_only_design_violates": True},
            "state_machine_conformance": {"model": "spec/DeflateStreamOps.tla (tabulated by spec/gen/GenDeflateStream.tla)", "calls_not_in_model": igz.drift_count(res)},
            "rule": "flush requests at every input position (small inputs) / sampled positions, several per stream with mode changes, first-call avail_out swept over every value so the header/body/marker stays pending and the next call supplies new input with another flush, "
                    "1-5 byte output chunks splitting the 00 00 FF FF marker; at every call that returns with flush in {SYNC,FULL}, all input consumed and space left TLC decodes the output so far (incrementally): it must end on a byte boundary after an empty stored block and decode to everything fed; "
-                   "after each completed FULL flush no later block may reference data before the flush point (per-block minimum reference from the decoder) and the first suffix is decoded in isolation; one-shot raw FULL_FLUSH output + a terminated output appended must be one valid stream. distinct_nontrivial = flush points judged",
+                   "after each completed FULL flush no later block may reference data before the flush point (per-block minimum reference from the decoder) and the first suffix is decoded in isolation; the same holds at the marker written for a FULL_FLUSH request that ran out of output space and was kept by every following call until there was room (the first call's output size is swept around the compressed size learnt from a probe run; the completing call brings a copy of the earlier data, short or longer than the internal buffer); FULL_FLUSH at input positions beyond 64 KiB in data with a period just under the window; one-shot raw FULL_FLUSH output + a terminated output appended must be one valid stream. distinct_nontrivial = flush points judged",
            "samples": [igz.describe(scns[2]), igz.describe(scns[len(scns) // 2])]}
     cleanup(wd)
-    return v.finish("model_checking", cov, ["TLC evaluates the decoder/contract correctly", "a flush point is 'complete' per the property: call returned with avail_in=0 and avail_out>0 and end_of_stream not set"])
+    return v.finish("model_checking", cov, ["TLC evaluates the decoder/contract correctly", "a flush point is 'complete' per the property: call returned with avail_in=0 and avail_out>0 and end_of_stream not set; a FULL_FLUSH request kept over several calls completes where its marker is written"])
